@@ -3396,6 +3396,15 @@ def _fuse_comp(c):
             f2 = lambda z: m_.get(z) if z[0] == 'bv' else None
             last = inner[3][-1]
             return _simplify_access(('comp', kind, T.replace(elt, f2), tuple(inner[3][:-1]) + ((last[0], last[1], tuple(last[2]) + tuple(T.replace(i, f2) for i in ifs)),)))
+        # {k: f(k, D[k]) for k in D}  visits what  {k: f(k, v) for k, v in D.items()}  visits (one spelling: the pairs)
+        src_ = it[2][0] if (it[0] == 'call' and it[1] == ('meth', 'keys') and len(it[2]) == 1) else it
+        if len(shape) == 1 and shape[0][0] == 'bv' and src_[0] in ('var', 'attr') and it[0] != 'comp':
+            look = ('sub', src_, shape[0])
+            nb = ('bv', shape[0][1] + 1)
+            parts_ = (elt,) + tuple(ifs)
+            if any(s_ == look for t_ in parts_ for s_ in T.subterms(t_)) and not any(s_ == nb for t_ in parts_ for s_ in T.subterms(t_)):
+                f3 = lambda z: nb if z == look else None
+                return _fuse_comp(('comp', kind, T.replace(elt, f3), (((shape[0], nb), ('call', ('meth', 'items'), (src_,), ()), tuple(T.replace(i, f3) for i in ifs)),)))
         gens = ((shape, it, ifs),)
     if len(gens) == 1 and kind != 'dict':
         shape, it, ifs = gens[0]
